@@ -12,6 +12,7 @@ import (
 	"sort"
 	"strconv"
 	"strings"
+	"syscall"
 	"time"
 
 	"google.golang.org/protobuf/proto"
@@ -39,6 +40,34 @@ func safeMarshal(m picobuf.Message) (b []byte, panicked string) {
 // the input on stderr and exits with status 97; the check turns that into a violation with this input as replay.
 const hangLimit = 25 * time.Second
 
+// cpuSeconds: CPU time (user + system) this process has used so far
+func cpuSeconds() float64 {
+	var ru syscall.Rusage
+	if err := syscall.Getrusage(syscall.RUSAGE_SELF, &ru); err != nil {
+		return 0
+	}
+	return float64(ru.Utime.Sec+ru.Stime.Sec) + float64(ru.Utime.Usec+ru.Stime.Usec)/1e6
+}
+
+// waitOrHang waits for the call to finish. A call that is still running after hangLimit of wall-clock time is reported as
+// non-terminating only if the process has also burnt 20 s of CPU since the call started (a spinning decoder does; a process
+// starved on an overloaded machine does not - the first version of this watchdog raised a false alarm on a 10 ms input
+// while 30 processes competed for 16 cores); without CPU progress the wait goes on, up to 20 minutes.
+func waitOrHang(done chan string) (string, bool) {
+	cpu0 := cpuSeconds()
+	deadline := time.Now().Add(20 * time.Minute)
+	for {
+		select {
+		case res := <-done:
+			return res, true
+		case <-time.After(hangLimit):
+			if cpuSeconds()-cpu0 >= 20 || time.Now().After(deadline) {
+				return "", false
+			}
+		}
+	}
+}
+
 func reportHang(what string, m interface{}, data []byte) {
 	fmt.Fprintf(os.Stderr, "VERIF-HANG\t%s\t%T\tx%s\n", what, m, hex.EncodeToString(data))
 	os.Exit(97)
@@ -60,13 +89,11 @@ func safeUnmarshal(data []byte, m picobuf.Message) (res string) {
 		}
 		r = "ok"
 	}()
-	select {
-	case res = <-done:
-		return res
-	case <-time.After(hangLimit):
-		reportHang("Unmarshal", m, data)
-		return "HANG"
+	if r, ok := waitOrHang(done); ok {
+		return r
 	}
+	reportHang("Unmarshal", m, data)
+	return "HANG"
 }
 
 func emitSchemas(u *Universe, out *bufio.Writer) {
